@@ -995,16 +995,27 @@ def _str_atoms(seq):
                 value = str(abs(fragment.charge)) if abs(fragment.charge) > 1 else ''
                 ret += '{'+value+sign+'}'
             if count != 1:
-                ret += "%g"%count
+                ret += _str_count(count)
         else:
             if count == 1:
                 piece = _str_atoms(fragment)
             else:
-                piece = "(%s)%g"%(_str_atoms(fragment), count)
+                piece = "(%s)%s"%(_str_atoms(fragment), _str_count(count))
             #ret = ret+" "+piece if ret else piece
             ret += piece
 
     return ret
+
+def _str_count(count):
+    """
+    Convert count to string with six digits of precision. Exponential
+    notation is not used since it is not supported by the formula parser.
+    """
+    text = "%g"%count
+    if 'e' in text:
+        from decimal import Decimal
+        text = format(Decimal(text), 'f')
+    return text
 
 def _is_string_like(val):
     """Returns True if val acts like a string"""
